@@ -42,6 +42,8 @@ func distGen(r *rand.Rand, n int, tier string, emit func(Case)) {
 			mk = 1
 		case 2:
 			mk = 2
+		case 3:
+			mk = 3
 		}
 		if i%25 == 24 {
 			a, b, c3 := l.any(6), l.any(6), l.any(6)
